@@ -237,7 +237,7 @@ EXTRA_TEXT = {
            "C12_generated_rows (exactly one row per pair of sets that both contain traces, in combinations order, each from its own pair) hold for all inputs.",
     "C13": " Added: C13_underlap_attribute over the regenerated stateful validator (a passing call leaves the class attribute untouched; verdict and written string never depend on its old "
            "value); S13's pool has a ninth frame (multi-part lines that form node defects once merged). C13_generated_pass: the regenerated row / validator loops of "
-           "run_validation equal the model pass; stream S13-generated runs them (compiled, with the regenerated _validate inside, both passes) against the real run_validation with scripted validators.",
+           "run_validation equal the model pass, and C13_generated_run_validation: the regenerated frame-level run_validation (both passes, exits) equals Tval.run; stream S13-generated runs them (compiled, with the regenerated _validate inside, both passes) against the real run_validation with scripted validators.",
     "C14": " Added stream S14-slivers (corner slivers of 0.5-4 x snap: all four routes must agree). The whole orchestration of branches_and_nodes is regenerated (item BranchesAndNodes) and "
            "C14_generated_routes proves that already_clipped=True on X and False on Y give the same result or exception whenever the prepared trace lists agree: the flag only decides who crops.",
     "C16": " S16-validation now also runs user-supplied thresholds 0.1 and 0.001. C16_boundary_lines_transparent: the regenerated loops of determine_boundary_intersecting_lines give the same "
